@@ -29,23 +29,17 @@ open Fs Fs.Ref Fs.MultiFs Fs.MultiFsLemmas Fs.WrapRefines Fs.MemRefines
 section Closed
 variable {σ : Type}
 
-/-- **multi_closed_is_final.**  Every method of a closed MultiFS fails and changes nothing — neither the
-MultiFS nor any layer — for every layer function `F`, every operation and path.  The class is
-FilesystemClosed (`self.check()` comes first) with ONE exception, as coded: `FS.removetree` evaluates
-`abspath(normpath(dir_path))` before anything checks the flag, so a path that cannot be normalised is
-reported as IllegalBackReference (see `multi_closed_removetree_class_counterexample`). -/
+/-- **multi_closed_is_final.**  Every method of a closed MultiFS fails with FilesystemClosed and changes
+nothing — neither the MultiFS nor any layer — for every layer function `F`, every operation and path
+(`self.check()` comes first in every method; since /repo 433aea4 also in the inherited `FS.removetree`, whose
+`abspath(normpath(dir_path))` used to report a path that cannot be normalised as IllegalBackReference before
+anything looked at the flag: `multi_closed_removetree_class_repaired`). -/
 theorem multi_closed_is_final (fuel : Nat) (F : FS σ) (s : MState σ) (op : Op) (hc : s.closed = true)
     (hop : op ≠ .close) :
-    ∃ e, MultiFs.step fuel F s op = (s, .err e) ∧
-      (e = .FilesystemClosed ∨ ∃ p, op = .removetree p ∧ normRes p = .err e) := by
+    MultiFs.step fuel F s op = (s, .err .FilesystemClosed) := by
   cases op
   case close => exact absurd rfl hop
-  case removetree p =>
-    simp only [MultiFs.step, removetreeM]
-    cases hn : normRes p with
-    | err e => exact ⟨e, rfl, Or.inr ⟨p, rfl, hn⟩⟩
-    | ok q => exact ⟨.FilesystemClosed, by simp [hc], Or.inl rfl⟩
-  all_goals exact ⟨.FilesystemClosed, by simp [MultiFs.step, hc], Or.inl rfl⟩
+  all_goals simp [MultiFs.step, hc]
 
 /-- `close()` of a closed MultiFS does nothing (`_filesystems` was cleared by the first `close()`) -/
 theorem multi_close_idempotent (fuel : Nat) (F : FS σ) (s : MState σ) (hc : s.closed = true) :
@@ -662,11 +656,12 @@ theorem multi_no_layers_counterexample :
     (ref s (.exists_ "/".toList)).2 = .ok (.bool true) := by
   decide
 
-/-- (e) the one class difference on a closed MultiFS: `FS.removetree` normalises its argument before
-anything looks at the closed flag (both calls fail, nothing changes) -/
-theorem multi_closed_removetree_class_counterexample :
+/-- (e) REPAIRED (/repo 433aea4): the one class difference a closed MultiFS had — `FS.removetree` normalised
+its argument before anything looked at the closed flag, so `removetree("..")` raised IllegalBackReference where the
+reference says FilesystemClosed — is gone: `removetree` starts with `validatepath`, i.e. with `check()` -/
+theorem multi_closed_removetree_class_repaired :
     let s : MState State := { stack [lay "w" 0 0 []] (some 0) with closed := true }
-    (call s (.removetree "..".toList)).2 = .err .IllegalBackReference ∧
+    (call s (.removetree "..".toList)).2 = .err .FilesystemClosed ∧
     (ref s (.removetree "..".toList)).2 = .err .FilesystemClosed ∧
     (call s (.removetree "a".toList)).2 = .err .FilesystemClosed := by
   decide
